@@ -11,6 +11,8 @@ _INJ_NOTE = ("Trusted: Lean kernel (propext, Classical.choice, Quot.sound only);
              "newBackend's struct literal) and canonicaliser; generator coverage (reported in evidence). Modelled, not "
              "verified: the kernel contract K1-K5 (which records the kernel produces, wd freshness, cookie distinctness), "
              "Go channel/select semantics. ")
+_LIVE = ("A second stage replays the same comparison on streams recorded from the REAL kernel (tee mode) after real "
+         "file-system operations, with the reader lagging behind, and compares /proc/self/fdinfo with both tables. ")
 CHECKS = {
  "C01": {
   "text": "Theorems over the model, for ALL inputs: decode(encode recs) = recs for every list of well-formed records "
@@ -47,6 +49,46 @@ CHECKS = {
           "exactly. " + _INJ + "filepath.Clean/Dir/Base are modelled in Lean and compared exhaustively over {a . /}^<=7.",
   "design_ref": "DESIGN.md §5 C08", "note": _INJ_NOTE + "filepath.Clean/Dir/Base (stdlib) modelled and differentially validated only.",
   "technique": "Lean 4 proofs over a hand-written model + differential correspondence (names at every padding residue, all path spellings)",
+ },
+ "C04": {
+  "text": "Theorems for EVERY state reachable through Add/Remove/record batches with arbitrary kernel answers (only K0: wd 0 "
+          "never issued): the two tables are mutually inverse with unique keys (invariant proved preserved by every "
+          "operation); hence WatchList has no duplicates and lists exactly the entries; Add answered with the path's own wd or "
+          "with the wd of an entry listed under another name changes no lookup (alias no-op, first spelling kept); Add of a "
+          "listed path that names a new unlisted file moves the entry (old wd gone); if the new file is listed elsewhere the "
+          "stale entry is dropped; Remove of an unlisted path = ErrNonExistentWatch with no effect; Remove never panics; a "
+          "failed Add changes nothing. " + _INJ + _LIVE + "Partial: path resolution is the kernel's (an input of the model).",
+  "design_ref": "DESIGN.md §5 C04", "note": _INJ_NOTE,
+  "technique": "Lean 4 invariant proof (induction over all operation sequences) + differential correspondence on injected and real-kernel streams",
+ },
+ "C09": {
+  "text": "Theorems for every reachable state: handling IGNORED / UNMOUNT / DELETE_SELF / non-recursive MOVE_SELF for a "
+          "listed wd removes the entry from both tables (so the path leaves WatchList, Remove reports ErrNonExistentWatch, "
+          "later records for that wd are silent and change nothing, and a re-Add creates a fresh entry); ATTRIB alone "
+          "(unlink while open) changes no table and reports Chmod; DELETE_SELF reports Remove iff the parent path is not "
+          "listed at that moment. The gap to the property ('unless the parent already did') is proved as a witness "
+          "(late_parent_witness) and reproduced on the implementation: known finding F5. " + _INJ + _LIVE,
+  "design_ref": "DESIGN.md §5 C09, §6 F5", "note": _INJ_NOTE + "Hypothesis hclean (stored paths are fixed points of Clean) is validated differentially.",
+  "technique": "Lean 4 proofs over reachable states + differential correspondence on injected and real-kernel streams (unlink-while-open, rename, recreate)",
+ },
+ "C10": {
+  "text": "Theorems for ALL states, records and kernel-mark sets (i.e. all speeds of the file system relative to the "
+          "reader): handleEvent puts nothing on Errors; a record yields exactly one ErrEventOverflow iff it carries "
+          "IN_Q_OVERFLOW; the overflow marker leaves tables and kernel marks untouched (so later events and Add/Remove "
+          "behave as if it had not happened). Holds after the repair of F1 (EINVAL no longer forwarded). " + _INJ + _LIVE +
+          "The injected stage hits the rm_watch-fails branch deterministically; a Go-side monitor checks the Errors stream "
+          "directly against the injected overflow markers.",
+  "design_ref": "DESIGN.md §5 C10, §6 F1", "note": _INJ_NOTE + "K3 (rm_watch fails only with EINVAL while the fd is open). Read errors (EOF/short read) not modelled.",
+  "technique": "Lean 4 proofs (all states, all streams) + differential correspondence + direct Errors-stream monitor",
+ },
+ "C12": {
+  "text": "Theorems for every reachable state (arbitrary kernel answers): tables_inverse (path[p]=wd iff wd-table entry wd "
+          "has path p), unique keys, entries keyed by their own wd, no operation ever panics; Remove of a listed path issues "
+          "inotify_rm_watch for exactly its wd and erases both entries; a re-pointing Add issues inotify_rm_watch for the old "
+          "wd (repair of F2). " + _INJ + _LIVE + "Ground truth for the kernel side is /proc/self/fdinfo, compared with both "
+          "tables after every drain of the real queue (both directions).",
+  "design_ref": "DESIGN.md §5 C12, §6 F2", "note": _INJ_NOTE + "Kernel mark list is observed, not modelled; K0-K3, K6.",
+  "technique": "Lean 4 invariant proof over all operation sequences + differential correspondence + fdinfo-vs-tables monitor on the real kernel",
  },
  "C11": {
   "text": "Theorems: the ten ring slots are exactly the last ten stored (cookie, old name) pairs (window invariant, by "
